@@ -79,6 +79,10 @@ func decodeChecks(ctx *core.Ctx, pc *ProgCase, cc *CodecCell, i int, si int, st 
 			st.blockers[l+": member/type missing: "+abstractName(o.ErrText)]++
 			return
 		}
+		if wallClockAnswer(o.ErrText) {
+			st.blockers[l+": per-command wall-clock limit of the driver (not a verdict)"]++
+			return
+		}
 		if only == nil {
 			ctx.Report(fmt.Sprintf("%s|decoder rejects the canonical encoding (%s)|%s|%s|%s", l, sfx, errWord(o.ErrText), progClass(pc.Prog.Name), optsInForce(pc.Prog)),
 				fmt.Sprintf("program %s message %s: %s\nbytes %s\n%s", pc.Prog.Name, m.ID, o.ErrText, core.Trunc(hexOf(ref), 300), core.Trunc(pc.Text, 600)), rep)
@@ -499,6 +503,8 @@ func projection(ctx *core.Ctx, progs []*dsl.Program, kind wire.FKind, rule strin
 					ctx.Report(fmt.Sprintf("%s|%s|%s", l, d, optsInForce(pc.Prog)),
 						fmt.Sprintf("program %s message %s\nvalue     %s\nreference %s\n%-9s %s\n%s", pc.Prog.Name, m.ID, core.Trunc(rep["value"].(string), 300), core.Trunc(hexOf(pc.Encs[i].Bytes), 300), l, core.Trunc(o.Hex, 300), core.Trunc(pc.Text, 600)), rep)
 				}
+			} else if wallClockAnswer(o.ErrText) {
+				st.blockers[l+": per-command wall-clock limit of the driver (not a verdict)"]++
 			} else if o.ErrKind != "unsupported" && kind == wire.KMatch {
 				ctx.Report(fmt.Sprintf("%s|encoder fails on a message with a mapped key|%s|%s", l, errWord(o.ErrText), progClass(pc.Prog.Name)),
 					fmt.Sprintf("program %s message %s: %s", pc.Prog.Name, m.ID, o.ErrText), rep)
